@@ -76,7 +76,7 @@ class C13(Prop):
         "retry delays and waiter timeouts are 0/absent in this family (timers across restarts are property C14)",
         "the crash point is the return of the k-th append_tick, i.e. after the tick is durable and before its commands run",
     ]
-    budgets = {"quick": 120, "thorough": 600}
+    budgets = {"quick": 80, "thorough": 600}
     wall = {"quick": 60.0, "thorough": 900.0}
     min_nontrivial_frac = 0.02
 
